@@ -31,7 +31,7 @@ Definition rate_call (m : tmap) (now : Z) (k : key) (limit period ttl : Z) : tma
   end.
 
 (* ---- Memory.slice_incr(key, start, end, maxvalue, expire) ---- *)
-Definition in_window (start end_ v : Z) : bool := (start <=? v) && (v <? end_).
+Definition in_window (start end_ v : Z) : bool := (start <=? v) && (v <=? end_).
 Definition slice_incr (m : tmap) (now : Z) (k : key) (start end_ maxv ttl : Z) : tmap * Z :=
   let l := match s_get m now k with Some (VZs l) => l | _ => [] end in
   let kept := filter (in_window start end_) l in
